@@ -1,6 +1,7 @@
 package txh
 
 import (
+	"context"
 	"fmt"
 	"math/rand"
 	"runtime/debug"
@@ -475,7 +476,14 @@ func (e *Env) RunConcurrent(stores []StoreOpts, progs []TxnProg, schedule []int,
 			}
 			return
 		}
-		if err := t.Tx.Commit(Ctx); err != nil {
+		// the caller's deadline: a little after the transaction's own commit budget (documented usage)
+		cctx := Ctx
+		if co.MaxTime > 0 {
+			var cancel context.CancelFunc
+			cctx, cancel = context.WithTimeout(Ctx, co.MaxTime+3*time.Second)
+			defer cancel()
+		}
+		if err := t.Tx.Commit(cctx); err != nil {
 			r.CommitErr = err
 			return
 		}
